@@ -3,6 +3,8 @@
    compaction edits, journal removals) up to a crash point; its recovery of the weakest or strongest crash
    image must keep exactly the batches the real Open recovers from the corresponding image. *)
 From GL Require Import Store.Crash.
+(* the byte-level cases (journal file bytes of a crash image) have their own evaluator; built along *)
+From GL Require Export Corr.C04BytesRun.
 
 Inductive c04case :=
 | KCrash (ops : list pop) (keep_all : bool) (observed : list N).   (* observed: 0-based issue indexes kept *)
